@@ -31,8 +31,10 @@ def check_no_exceptions(sim, prop, allow=()):
                         % (what, where, e))
 
 
-def check_no_logged_errors(ctx, prop):
+def check_no_logged_errors(ctx, prop, allow=()):
     for name, f in ctx.seams.errors:
+        if f is not None and allow and f.check(*allow):
+            continue          # the workload's own misbehaving callbacks, reported by the library
         raise Violation(prop + '/logged-error', name,
                         'error logged during the run: %s' % (f.getTraceback()[-400:] if f else name))
 
